@@ -81,6 +81,10 @@ PROPERTIES["C06"] = {
           params={"quick": {"n": 84, "cred_len": 1}, "thorough": {"n": 92, "cred_len": 2}},
           budget={"quick": 400, "thorough": 3000},
           required_covers=["c06.plain-server.rejected", "c06.plain-server.handshake-complete-with-valid-hello"]),
+        M("c06_gate_without_available_mechanism", "d_c06", "gate_without_available_mechanism",
+          "engine (both roles, ALLOW_ZMTP2 both values) whose configured mechanism is neither NULL nor PLAIN - the greeting / negotiation / ZMTP-2.0 gate a CURVE or NOISE_XX socket shares with PLAIN; 84 fully symbolic peer bytes: the handshake must not progress past the greeting",
+          params={"quick": {"n": 84}, "thorough": {"n": 96}}, budget={"quick": 300, "thorough": 900},
+          required_covers=["c06.gate.refused"]),
     ],
     "assumptions": MIRSYM_TRUST + ["CURVE and NOISE_XX are not in the default feature set the dump is built with; their bypass checks are limited to the version/mechanism gate shared with PLAIN (greeting, negotiate_security_mechanism, v2 refusal)"],
     "manifest": {
@@ -88,7 +92,7 @@ PROPERTIES["C06"] = {
         "technique": "symbolic execution of the engine's MIR (z3) over a fully symbolic peer byte stream; oracle on the tokens reaching the mechanism",
         "text": "For a PLAIN-configured listener and EVERY peer byte stream within the bound (all greetings: any revision, mechanism field, as-server byte, padding; any following frames), the engine reaches HandshakeComplete / Data / DeliverMessage only if a HELLO carrying exactly the configured username and password was processed. All paths are enumerated; each verdict is a z3 query.",
         "design_ref": "DESIGN.md §5 C06",
-        "note": "Bounded by the stream length (84/92 bytes, one read; cut independence is C04) and credential length; PLAIN client role and CURVE/NOISE transcripts are outside (listed in DESIGN.md). Model library and MIR semantics are trusted; counterexamples are replayed natively.",
+        "note": "Bounded by the stream length (84/92 bytes, one read; cut independence is C04) and credential length. For CURVE / NOISE_XX only the gate they share with PLAIN is decided (no NULL / PLAIN / unknown-mechanism / ZMTP-2.0 peer gets past the greeting of a socket whose mechanism is neither NULL nor PLAIN); their own handshakes (cryptography) and the PLAIN connector role are outside. Model library and MIR semantics are trusted; counterexamples are replayed natively.",
     },
     "outside": "PLAIN connector role, CURVE/NOISE_XX handshakes (cryptography, non-default features), streams longer than the bound",
 }
@@ -223,8 +227,11 @@ PROPERTIES["C08"] = {
     "cfabmc": [
         dict(name="c08_rpq_interleavings", module="verifkit.cfabmc.rpq_check",
              scenarios={
-                 "quick": [dict(npipes=1, cap=2, ready_cap=1, items_per_producer=2, consumer_calls=2)],
+                 "quick": [dict(npipes=1, cap=2, ready_cap=1, items_per_producer=2, consumer_calls=2),
+                           dict(npipes=1, cap=2, ready_cap=1, items_per_producer=2, consumer_calls=2, batch=True)],
                  "thorough": [dict(npipes=1, cap=2, ready_cap=1, items_per_producer=2, consumer_calls=2),
+                              dict(npipes=1, cap=2, ready_cap=1, items_per_producer=2, consumer_calls=2, batch=True),
+                              dict(npipes=1, cap=1, ready_cap=1, items_per_producer=2, consumer_calls=2, batch=True),
                               dict(npipes=1, cap=1, ready_cap=1, items_per_producer=2, consumer_calls=2),
                               dict(npipes=1, cap=2, ready_cap=1, items_per_producer=2, consumer_calls=3)],
              },
@@ -234,9 +241,9 @@ PROPERTIES["C08"] = {
     "manifest": {
         "engine": "cfabmc",
         "technique": "bounded model checking of interleavings (z3, QF_BV): control-flow automata of send/try_send/pop/try_pop extracted from MIR, scheduler choice per step as solver variable",
-        "text": "For one producer sending 2 items using the async or the non-blocking enqueue path (solver's choice per call) and a consumer using pop/try_pop (solver's choice, last call blocking), over ALL interleavings of the individual channel and counter operations within K steps: no state with all producers done, the consumer parked on an empty ready list and a message still queued (lost wake-up); no counter underflow; reserved_count >= queued_count; debug_assert!(prev > 0) unreachable; spin/retry loops stay within the extraction bound.",
+        "text": "For one producer sending 2 items using the async or the non-blocking enqueue path (solver's choice per call) or one batched try_send_batch and a consumer using pop/try_pop (solver's choice, last call blocking), over ALL interleavings of the individual channel and counter operations within K steps: no state with all producers done, the consumer parked on an empty ready list and a message still queued (lost wake-up); no counter underflow; reserved_count >= queued_count; debug_assert!(prev > 0) unreachable; spin/retry loops stay within the extraction bound.",
         "design_ref": "DESIGN.md §5 C08",
-        "note": "Bounds: ONE pipe (one producer, one consumer), 2 items, pipe capacity 2 (quick) and also capacity 1 / 3 dequeue calls (thorough); scenarios with two pipes did not finish within an hour of solver time and are NOT covered. try_send_batch, cancellation of a blocked dequeue, deregister_pipe/close, wait_for_connection and WaitGroup are NOT covered. Counterexample schedules are printed; they are not replayed natively (no scheduling hook in the repo), so a reported schedule is a solver witness over the extracted CFAs.",
+        "note": "Bounds: ONE pipe (one producer, one consumer), 2 items, pipe capacity 2 (quick) and also capacity 1 / 3 dequeue calls (thorough); scenarios with two pipes did not finish within an hour of solver time and are NOT covered. cancellation of a blocked dequeue, deregister_pipe/close, wait_for_connection and WaitGroup are NOT covered. Counterexample schedules are printed; they are not replayed natively (no scheduling hook in the repo), so a reported schedule is a solver witness over the extracted CFAs.",
     },
     "outside": "try_send_batch, cancellation, deregistration/close, more than 2 producers, fibre internals",
 }
